@@ -9,8 +9,8 @@
 (* For every trace the property layer of TimeStep.tla is evaluated on the  *)
 (* recorded results (Verdict: failed clauses; whether the failure is       *)
 (* explained by findings of status "known" and by which) and, for drift    *)
-(* detection, the                                                          *)
-(* recorded results are compared with the mechanism model.  Results are    *)
+(* detection, the recorded results are compared with the mechanism model   *)
+(* of the code as it is.  Results are                                      *)
 (* accumulated in TLC registers and printed by the POSTCONDITION.          *)
 (***************************************************************************)
 EXTENDS TimeStep, Json, IOUtils, TLC, TLCExt
